@@ -132,6 +132,10 @@ class Render:
             return '%sfor %s in %s repeat {\n%s\n%s};' % (t, st[1], self.src(st[2]), self.block(st[3], ind + 1), t)
         if k == 'for2':        # parallel iteration ('for2', v1, src1, v2, src2, body)
             return '%sfor %s in %s for %s in %s repeat {\n%s\n%s};' % (t, st[1], self.src(st[2]), st[3], self.src(st[4]), self.block(st[5], ind + 1), t)
+        if k == 'forn':        # ('forn', [('for', var, src, filter or None) | ('while', cond), ...], body): iterators in lock step
+            hd = ' '.join(('for %s in %s%s' % (i[1], self.src(i[2]), (' | ' + self.e(i[3])) if i[3] is not None else '')) if i[0] == 'for' else 'while ' + self.e(i[1])
+                          for i in st[1])
+            return '%s%s repeat {\n%s\n%s};' % (t, hd, self.block(st[2], ind + 1), t)
         if k == 'while':
             return '%swhile %s repeat {\n%s\n%s};' % (t, self.e(st[1]), self.block(st[2], ind + 1), t)
         if k == 'break':
@@ -189,6 +193,8 @@ def _walk(body):
             yield from _walk(st[3])
         elif k == 'for2':
             yield from _walk(st[5])
+        elif k == 'forn':
+            yield from _walk(st[2])
         elif k == 'while':
             yield from _walk(st[2])
         elif k == 'try':
@@ -213,6 +219,10 @@ def declared(body):
             d.add(st[1])
         elif st[0] == 'for2':
             d.add(st[1]); d.add(st[3])
+        elif st[0] == 'forn':
+            for i in st[1]:
+                if i[0] == 'for':
+                    d.add(i[1])
         elif st[0] == 'fn':
             d.add(st[1])
     return d
@@ -528,6 +538,41 @@ class Eval:
                         break
                     try:
                         yield from self.x(body2, le)
+                    except BreakEx:
+                        break
+                    except IterEx:
+                        continue
+            elif k == 'forn':
+                # the iterators are advanced in the order written; a `for` whose filter rejects the value starts the next round
+                # (every iterator written before it has moved, those after it have not); the first exhausted `for` or false
+                # `while` ends the loop
+                le = Env(env)
+                its = [(i, self.iterate(i[2], env) if i[0] == 'for' else None) for i in st[1]]
+                done = False
+                while not done:
+                    self.steps += 1
+                    if self.steps > 200000:
+                        raise OutOfSubset('too long')
+                    again = False
+                    for i, it in its:
+                        if i[0] == 'for':
+                            try:
+                                le.v[i[1]] = next(it)
+                            except StopIteration:
+                                done = True
+                                break
+                            if i[3] is not None and not self.e(i[3], le):
+                                again = True
+                                break
+                        elif not self.e(i[1], le):
+                            done = True
+                            break
+                    if done:
+                        break
+                    if again:
+                        continue
+                    try:
+                        yield from self.x(st[2], le)
                     except BreakEx:
                         break
                     except IterEx:
